@@ -215,41 +215,26 @@ def write_fasta(
             print(line, file=output)
 
 
-def _build_newick(tree, *, node, precision, node_labels, include_branch_lengths):
-    label = node_labels.get(node, "")
-    if tree.is_leaf(node):
-        s = f"{label}"
-    else:
-        s = "("
-        for child in tree.children(node):
-            branch_length = tree.branch_length(child)
-            subtree = _build_newick(
-                tree,
-                node=child,
-                precision=precision,
-                node_labels=node_labels,
-                include_branch_lengths=include_branch_lengths,
-            )
-            if include_branch_lengths:
-                subtree += ":{0:.{1}f}".format(branch_length, precision)
-            s += subtree + ","
-        s = s[:-1] + f"){label}"
-    return s
-
-
 def build_newick(tree, *, root, precision, node_labels, include_branch_lengths):
     """
-    Simple recursive version of the newick generator used when non-default
+    Simple iterative version of the newick generator used when non-default
     node labels are needed, or when branch lengths are omitted
     """
-    s = _build_newick(
-        tree,
-        node=root,
-        precision=precision,
-        node_labels=node_labels,
-        include_branch_lengths=include_branch_lengths,
-    )
-    return s + ";"
+    subtrees = {}
+    for node in tree.nodes(root, order="postorder"):
+        label = node_labels.get(node, "")
+        if tree.is_leaf(node):
+            s = f"{label}"
+        else:
+            parts = []
+            for child in tree.children(node):
+                subtree = subtrees.pop(child)
+                if include_branch_lengths:
+                    subtree += ":{0:.{1}f}".format(tree.branch_length(child), precision)
+                parts.append(subtree)
+            s = "(" + ",".join(parts) + f"){label}"
+        subtrees[node] = s
+    return subtrees[root] + ";"
 
 
 def dump_text(
